@@ -310,7 +310,55 @@ def r7(ctx):
     ctx.floor(R, 2)
 
 
+def r9(ctx):
+    R = "C18-R9"
+    ctx.rule(R, "(a) every submission completes: the eviction loop of PageCache::insert (`while len >= max_pages { remove oldest }`), which "
+                "schedule_pending runs for every buffered read / write, can be left for every configuration - it stops when the removal "
+                "finds nothing, or max_pages == 0 is handled before it (with max_pages 0 the test is always true and the set is empty); "
+                "(b) AsyncCancel only cancels operations that are still in flight: the search in RingState::cancel looks at the entry's "
+                "kind (ScheduledCqe::apply) and skips completions that were already posted (ImmediateError) - otherwise a cancel rewrites "
+                "the result of an entry that had already completed")
+    pi = ctx.body(R, "turmoil_fs::PageCache::insert")
+    if pi and ctx.config in ("all", "fs", "fs_iou"):
+        MP = "field:turmoil_fs::PageCacheConfig::max_pages"
+        lps = [c for c in loops(pi)]
+        ok = True
+        for comp in lps:
+            exits = loop_exits(pi, comp)
+            # an exit that depends on the removal's result, or a guard on max_pages before the loop that returns
+            by_result = any(pi.term(u)["k"] == "switch" and any(re.search(r"shift_remove_index$|swap_remove_index$|pop$|shift_remove$", a) for a in Slicer(ctx.w).atoms(pi, pi.term(u)["d"]) if a.startswith("call:"))
+                            for u, v in exits)
+            guarded = False
+            for sbb, te, fe, o in guards_on(pi, lambda o: o["k"] == "bin" and o["op"] in ("Eq", "Ne", "Gt", "Lt", "Le", "Ge")):
+                at = Slicer(ctx.w).atoms(pi, o["a"]) | Slicer(ctx.w).atoms(pi, o["b"])
+                if MP in at and sbb not in comp and ((op_const(o["a"]) or op_const(o["b"]) or {}).get("v") in (0, 1)) and all(pi.dominated_by_block(min(comp), sbb) for _ in [0]):
+                    guarded = True
+            cmp_max = any(MP in Slicer(ctx.w).atoms(pi, pi.term(u)["d"]) for u, v in exits)
+            if cmp_max and not (by_result or guarded):
+                ok = False
+        ctx.inst(R, "page-cache:eviction-terminates", ok and bool(lps), pi.span, "the eviction loop ends for every max_pages" if ok and lps else
+                 "PageCache::insert evicts `while len >= max_pages` and never looks at whether anything was removed: page_cache().max_pages(0) makes the loop spin on an empty set - "
+                 "submit() of any buffered Read / Write never returns and the entry never completes")
+    cn = ctx.body(R, "turmoil_io_uring::sim::RingState::cancel")
+    if cn and ctx.config in ("all", "fs_iou"):
+        n_pos, n_kind = 0, 0
+        for bb, t in cn.calls(re.compile(r"Iterator::position$|Iterator>::position$|Iterator::find$|Iterator::any$")):
+            n_pos += 1
+            for cid in closure_args(cn, t):
+                for fb in ctx.w.family(cid):
+                    reads = any("turmoil_io_uring::sim::ScheduledCqe::apply" in place_fields(pl) for _, _, s in fb.all_stmts()
+                                for pl in [s["p"]] + ([s["r"]["p"]] if isinstance(s["r"].get("p"), dict) else []) + [op_place(o) for o in [s["r"].get("o")] if isinstance(o, dict) and op_place(o)])
+                    if reads:
+                        n_kind += 1
+        ok = n_pos > 0 and n_kind >= n_pos
+        ctx.inst(R, "cancel:targets-operations-only", ok, cn.span, "a cancel only matches operations still in flight" if ok else
+                 "RingState::cancel finds its target by user_data alone, so it also matches completions that were already posted (the -EINVAL of a rejected entry, the result of an "
+                 "earlier cancel) and rewrites them to -ECANCELED: {1: -EINVAL, 2: -ENOENT} becomes {1: -ECANCELED, 2: 0}")
+    ctx.floor(R, 2)
+
+
 def run(ctx):
+    r9(ctx)
     scan_rule(ctx, "C18")
     r7(ctx)
     r1(ctx)
